@@ -269,6 +269,47 @@ func VerifC03_Pred_SetLimitAddRemove() {
 	verif.Assert("pred-remove-release-clean", v.s.BusyCount() == v.total && v.a.BusyCount() == v.ba)
 	t2, ok2 := v.s.TryAcquire(verifStrCtx("x"))
 	verif.Assert("pred-removed-nomatch", !ok2 && !t2.IsAcquired())
+	// removal keeps the registration order of the remaining partitions: d (registered last) also
+	// matches "y"; after a is gone a "y" request is still charged to b, the earlier registration
+	d := NewPredicatePartitionWithMetricRegistry("d", 0.2, func(ctx context.Context) bool {
+		sv, _ := ctx.Value(matchers.StringPredicateContextKey).(string)
+		return sv == "y"
+	}, core.EmptyMetricRegistryInstance)
+	verif.Assert("pred-add-second-ok", v.s.AddPartition(d))
+	bBefore, dBefore := v.b.BusyCount(), d.BusyCount()
+	_, ok3 := v.s.TryAcquire(verifStrCtx("y"))
+	if ok3 {
+		verif.Assert("pred-first-registered-charged-after-removal", v.b.BusyCount() == bBefore+1 && d.BusyCount() == dBefore)
+	}
+	verif.Reach("end")
+}
+
+// VerifC03_Pred_RemovalKeepsOrder: three partitions a, b, c registered in that order, b and c both
+// match "y"; removing a (or nothing) must not change which of b and c is "the first registered one":
+// the matching request is charged to b.
+//
+//verif:harness property=C03 theory=real tier=quick
+func VerifC03_Pred_RemovalKeepsOrder() {
+	v := verifPredState()
+	c := NewPredicatePartitionWithMetricRegistry("c", 0.2, func(ctx context.Context) bool {
+		sv, _ := ctx.Value(matchers.StringPredicateContextKey).(string)
+		return sv == "y" || sv == "z"
+	}, core.EmptyMetricRegistryInstance)
+	verif.Assert("pred-add-ok", v.s.AddPartition(c))
+	switch verif.Choice("remove", 3) {
+	case 1:
+		removed, any := v.s.RemovePartitionsMatching(verifStrCtx("x"))
+		verif.Assert("pred-remove-first", any && len(removed) == 1 && removed[0] == v.a)
+	case 2:
+		removed, any := v.s.RemovePartitionsMatching(verifStrCtx("z"))
+		verif.Assert("pred-remove-last", any && len(removed) == 1 && removed[0] == c)
+	}
+	bBefore, cBefore := v.b.BusyCount(), c.BusyCount()
+	_, ok := v.s.TryAcquire(verifStrCtx("y"))
+	if ok {
+		verif.Assert("pred-first-registered-charged", v.b.BusyCount() == bBefore+1 && c.BusyCount() == cBefore)
+		verif.Reach("charged")
+	}
 	verif.Reach("end")
 }
 
